@@ -2,7 +2,7 @@
 """C10 - reference events: once each, evaluation order, canonical coordinates, setter protocol (K3 + K1)."""
 import itertools
 
-from ..core import Sub, fail, enc
+from ..core import Sub, fail, enc, scale
 
 AZ = 'ABCDEFGHIJKLMNOPQRSTUVWXYZ'
 
@@ -582,4 +582,70 @@ class RaisingCalls(Sub):
         return None
 
 
-SUBS = [Order(), Labels(), Ranges(), Setter(), RaisingCalls()]
+
+class EventScale(Sub):
+    name = 'c10.scale'
+    rule = ('size ladder of the number n of references in one formula: A1+A2+...+An, SUM(A1,...,An) (n <= 1025), v1&v2&...&vn over n '
+            'variables, FN(FN(...)) n calls nested in arguments of +: exactly n events, in left-to-right order, each with its own '
+            'label and coordinates, and the value computed from the n answers; non-trivial = all')
+    min_cases = 40
+    min_nontrivial = 40
+
+    def cases(self, tier, unit):
+        for n in scale(tier, 1025):
+            for kind in ('cells', 'args', 'vars', 'calls', 'ranges'):
+                yield [n, kind]
+
+    def check(self, env, case):
+        n, kind = case
+        env.nt()
+        p = env.new_parser()
+        ev = []
+        p.on('callCellValue', lambda c, s: (ev.append(['cell', c.label, c.row.index, c.col.index]), s(c.row.index + 1)))
+        p.on('callRangeValue', lambda a, b, s: (ev.append(['range', a.label, b.label, a.row.index, b.row.index]), s([[a.row.index + 1]])))
+        p.on('callVariable', lambda name, s: ev.append(['var', name]))
+        p.on('callFunction', lambda name, args, s: ev.append(['fn', name, list(args)]))
+        if kind == 'cells':
+            text = '+'.join('A%d' % i for i in range(1, n + 1))
+            want_ev = [['cell', 'A%d' % i, i - 1, 0] for i in range(1, n + 1)]
+            want = n * (n + 1) // 2
+        elif kind == 'args':
+            text = 'SUM(%s)' % ','.join('B%d' % i for i in range(1, n + 1))
+            want_ev = [['cell', 'B%d' % i, i - 1, 1] for i in range(1, n + 1)] + [['fn', 'SUM', list(range(1, n + 1))]]
+            want = n * (n + 1) // 2
+        elif kind == 'vars':
+            names = ['v' + ''.join('abcdefghij'[int(d)] for d in str(i)) for i in range(n)]
+            for i, nm in enumerate(names):
+                p.set_variable(nm, i % 10)
+            text = '&'.join(names)
+            want_ev = [['var', nm] for nm in names]
+            want = ''.join(str(i % 10) for i in range(n)) if n > 1 else 0
+        elif kind == 'calls':
+            p.set_function('FN', lambda x: x + 1)
+            text = '+'.join('FN(%d)' % i for i in range(n))
+            want_ev = [['fn', 'FN', [i]] for i in range(n)]
+            want = n * (n + 1) // 2
+        else:
+            text = '+'.join('SUM(C%d:C%d)' % (i, i + 1) for i in range(1, n + 1))
+            want_ev = []
+            for i in range(1, n + 1):
+                want_ev += [['range', 'C%d' % i, 'C%d' % (i + 1), i - 1, i], ['fn', 'SUM', [[[i]]]]]
+            want = n * (n + 1) // 2
+        env.evals += 1
+        try:
+            r = p.parse(text)
+        except Exception as e:
+            return fail('a formula with %d %s raised %s' % (n, kind, type(e).__name__))
+        o = env.out(r)
+        if ev != want_ev:
+            k = next((i for i in range(min(len(ev), len(want_ev))) if ev[i] != want_ev[i]), min(len(ev), len(want_ev)))
+            return fail('a formula with %d %s (%s ...): %d events, expected %d; first difference at event %d: got %r, expected %r' % (
+                n, kind, text[:40], len(ev), len(want_ev), k, ev[k] if k < len(ev) else None, want_ev[k] if k < len(want_ev) else None),
+                repr(want_ev[k:k + 2]), repr(ev[k:k + 2]))
+        if o != ['v', want]:
+            return fail('a formula with %d %s (%s ...) evaluates to %s, expected %s' % (n, kind, text[:40], repr(o)[:80], repr(want)[:80]),
+                        repr(want)[:200], repr(o)[:200])
+        return None
+
+
+SUBS = [Order(), Labels(), Ranges(), Setter(), RaisingCalls(), EventScale()]
